@@ -149,6 +149,8 @@ def _binary(ctx, cfg):
         for hi in range(len(hs)):
             tot = tot + A[r][hi]
         ctx.eq("lemma/pi-is-the-reported-distribution[%d]" % r, tot, pi[r], z3_confirm=False)
+    from qucumber.rbm import BinaryRBM
+    _history(ctx, rbm, lambda: BinaryRBM(nv, nh, gpu=False), [("prob_h_given_v", (_c(vs),)), ("prob_v_given_h", (_c(hs),))])
 
 
 def _gibbs(ctx, rbm, nv, nh, na, cond_h, cond_v, cond_a):
@@ -324,6 +326,33 @@ def _purification(ctx, cfg):
         for i in range(len(pairs)):
             tot = tot + A[r][i]
         ctx.eq("lemma/pi-is-the-reported-distribution[%d]" % r, tot, pi[r], z3_confirm=False)
+    _history(ctx, rbm, lambda: PurificationRBM(nv, nh, na, gpu=False),
+             [("prob_h_given_v", (_c(vs),)), ("prob_a_given_v", (_c(vs),)),
+              ("prob_v_given_ha", (_c([h for h, a in pairs]), _c([a for h, a in pairs])))])
+
+
+def _history(ctx, rbm, mk_ref, calls):
+    """History: the conditionals have been used; now the parameters are replaced through `.data` (as the tutorials and
+    load() do) and scaled in place.  Every conditional must follow the current parameters: it has to agree with a
+    fresh network object holding the same parameter values (whose conditionals were just proved exact)."""
+    st.reset_logs()
+    names = [n for n, _p in rbm.named_parameters()]
+    for step, change in (("replaced through .data", "assign"), ("scaled in place through .data", "scale")):
+        for n in names:
+            p = getattr(rbm, n)
+            if change == "assign":
+                p.data = st.fresh(tuple(p.shape), "new_" + n)
+            else:
+                p.data *= 2
+        ref = mk_ref()
+        N.symbolize(ref, "ref", frozen=False)
+        for n in names:
+            getattr(ref, n).data = st.SymTensor(getattr(rbm, n)._arr.copy())
+        for fname, args in calls:
+            got = getattr(rbm, fname)(*args)
+            want = getattr(ref, fname)(*args)
+            ctx.eq_arrays("history/%s follows parameters %s" % (fname, step), got, want, z3_confirm=False)
+    st.reset_logs()
 
 
 # --------------------------------------------------------------------- NeuralStateBase.sample
